@@ -7,7 +7,7 @@
    bounded memory (refuted: known finding chunk-table-request-ids-unbounded; partial: per request id) and
    never blocks forever (refuted: known finding rcvlocker-wedge). *)
 From Coq Require Import NArith ZArith List Bool Lia.
-From Opcua Require Import Model.RecvBase Model.RecvCrypto Model.RecvMerge Model.RecvFrame
+From Opcua Require Import Model.RecvBase Model.RecvCrypto Model.RecvMerge Model.RecvChan Model.RecvFrame
   Proofs.RecvBaseProofs Proofs.RecvCryptoProofs Proofs.RecvMergeProofs Proofs.RecvFrameProofs.
 Import ListNotations.
 
@@ -102,14 +102,14 @@ Theorem C13_prefix_refuted : ~ frame_no_panic_prefix.
 Proof.
   intro H.
   apply (H (fun u => match u with [] => true | _ => false end) (fun _ _ => None)
-           {| f_mode := SSign; f_pnone := false; f_opening := Some None; f_insts := []; f_cap := 65535 |} opn_none P_NIL).
+           {| f_mode := SSign; f_pnone := false; f_opening := Some None; f_insts := []; f_cap := 65535; f_last := None |} opn_none P_NIL).
   - split; [cbn; lia|]. split; [intros c l a []|]. split; [intros oa [= <-]; exact I | discriminate].
   - vm_compute. reflexivity.
 Qed.
 
 Definition ex_state : fstate :=
   {| f_mode := SSign; f_pnone := false; f_opening := Some None;
-     f_insts := [(7, [Some {| a_dec := toy_dec 16 165; a_verify := toy_verify 77; a_rsl := 32; a_lsl := 32 |}])]; f_cap := 8192 |}.
+     f_insts := [(7, [Some {| a_dec := toy_dec 16 165; a_verify := toy_verify 77; a_rsl := 32; a_lsl := 32 |}])]; f_cap := 8192; f_last := None |}.
 Definition ex_short : bytes := [77;83;71;70; 20;0;0;0; 7;0;0;0; 2;0;0;0; 9;9;9;9].
 Example C13_nonvacuous :
   state_ok (fun _ _ => None) ex_state /\
